@@ -534,12 +534,12 @@ MACHINES = {"hist_lganm": (_init_lganm, _steps_lganm), "hist_normal": (_init_nor
 
 def plan(tier, seed):
     jobs = []
-    n = scaled(360 if tier == "quick" else 5000)
+    n = scaled(1000 if tier == "quick" else 10000)
     shards = 5 if tier == "quick" else 21
     for sub in MACHINES:
         for k in range(shards):
             jobs.append({"sub": sub, "seed": seed, "shard": k, "n": max(1, n // shards), "steps": 25 if tier == "quick" else 40, "cost": 10})
-    ns = scaled(4800 if tier == "quick" else 80000)
+    ns = scaled(16000 if tier == "quick" else 240000)
     sh = 16 if tier == "quick" else 48
     for k in range(sh):
         jobs.append({"sub": "sweep", "seed": seed, "shard": k, "salt": 2, "n": max(1, ns // sh), "cost": 8})
